@@ -236,14 +236,27 @@ func c01Property(t *rapid.T, st *Stats) {
 			d := rapid.SampledFrom(digs).Draw(t, "digest")
 			tgt := rapid.SampledFrom(c01Repos).Draw(t, "target")
 			src := rapid.SampledFrom(c01Repos).Draw(t, "source")
-			r := e.do("POST", "/v2/"+tgt+"/blobs/uploads/?mount="+url.QueryEscape(d)+"&from="+url.QueryEscape(src), nil, nil)
+			q := "?mount=" + url.QueryEscape(d) + "&from=" + url.QueryEscape(src)
+			switch rapid.IntRange(0, 5).Draw(t, "fromForm") {
+			case 0:
+				q, src = "?mount="+url.QueryEscape(d), "(no from)" // the source is left to the registry
+			case 1:
+				q, src = "?mount="+url.QueryEscape(d)+"&from=Not%20A%20Name", "(invalid from)"
+			}
+			r := e.do("POST", "/v2/"+tgt+"/blobs/uploads/"+q, nil, nil)
 			e.logf("mount %s from %s to %s -> %d", short(d), src, tgt, r.code)
 			e.class("mount")
 			touched = append(touched, d)
+			// a mount carries no content: it can fall back to a session (202), it is never a mismatching upload. In
+			// particular a mount of content the target already holds is not refused (guards the repair 834dec7, which
+			// must verify the body of monolithic uploads only)
+			if _, held := e.repo(tgt).blobs[d]; held && c04DigRE.MatchString(d) && (r.code < 200 || r.code > 299) {
+				e.fail("mount-of-held-content-refused", "POST %s on %s, which holds %s, answered %d %s", q, tgt, short(d), r.code, trunc(r.body, 160))
+			}
 			switch r.code {
 			case 201:
-				if b, ok := e.repo(src).blobs[d]; ok {
-					e.repo(tgt).blobs[d] = b
+				if sr, known := e.repos[src]; known && sr.blobs[d] != nil {
+					e.repo(tgt).blobs[d] = sr.blobs[d]
 				} else if _, ok := e.repo(tgt).blobs[d]; !ok {
 					// C16 decides whether this mount may succeed; here only the served bytes matter (sweep)
 					e.st.Add("mount-201-without-source", 1)
